@@ -59,9 +59,10 @@ def _mk_operand(kind, j, dim, shape, size):
         return OBJ(EX, "BoolExpr", op=None, operands=mklist([])), False
     if kind == "iexpr":
         return OBJ(EX, "IntExpr", op=None, operands=mklist([])), False
+    # Python literals: ARBITRARY values (a change that special-cases 0, 1, True ... must show up)
     if kind == "blit":
-        return True, False
-    return 2, False
+        return (sbool("bool_literal%d" % j) if CTX.mode == "sym" else True), False
+    return (sint("int_literal%d" % j) if CTX.mode == "sym" else 2), False
 
 
 @harness("C12", cases=_cases())
@@ -98,7 +99,13 @@ def elementwise(case):
                 if is_arr:
                     check("element-operand-%d-is-array-element-i" % j, same(item(ops_, j), raw_item(attr(v, "data"), i)))
                 else:
-                    check("element-operand-%d-is-the-scalar" % j, same(item(ops_, j), v))
+                    got = item(ops_, j)
+                    if isinstance(v, (int, bool, SInt, SBool)):
+                        # a literal: the same VALUE of the same kind (identity of ints is not a Python-level notion)
+                        check("element-operand-%d-is-the-scalar" % j,
+                              And(isinstance(got, (bool, SBool)) == isinstance(v, (bool, SBool)), got == v) if isinstance(got, (int, bool, SInt, SBool)) else False)
+                    else:
+                        check("element-operand-%d-is-the-scalar" % j, same(got, v))
 
     watch("append", EW, "res", on_append)
     loop_spec(EW, 1, inv=lambda ns: [length(ns.res) == ns.i], modifies=["res"], types={"res": "list:ref"})
